@@ -110,10 +110,11 @@ func (c verifCam) FPS() int  { return c.fps }
 
 // filerec: the real CPTVFileRecorder driven by commands on stdin, one per line, each
 // acknowledged on stdout:
-//   new <outdir> <constant 0|1> <resx> <resy> [<device name length>]   start <thresh>   write <value>   stop   Stop
-//   deltemp <dir>   exit
-//   start2 <thresh>   write2 <value>   stop2 : the same on a second recorder for the same output directory
-//   (as the test-recording recorder next to the motion recorder)
+//
+//	new <outdir> <constant 0|1> <resx> <resy> [<device name length>]   start <thresh>   write <value>   stop   Stop
+//	deltemp <dir>   exit
+//	start2 <thresh>   write2 <value>   stop2 : the same on a second recorder for the same output directory
+//	(as the test-recording recorder next to the motion recorder)
 func verifFileRec() int {
 	// every system call of this driver is made by one OS thread, so that the harness can
 	// count them (strace's injection counter is per thread)
@@ -366,7 +367,10 @@ func verifRace() int {
 // every k-th frame has been completed; the frames at which requests were made are reported.
 // With a fifth argument b > 0, after every b-th frame a BAD frame is sent (upper half of a new value, a zero
 // pixel in the middle row): once it has been rejected, the snapshot is still the last completed frame.
-// argv: <config dir> <frames> <clear every> [<test recording every> [<bad frame every>]]
+// Further optional arguments: <connections> (the whole sequence is repeated over that many camera
+// connections to the same process), <step> and <base> (frame i carries the value (base + i*step) % 60000 + 1;
+// step >= 2 makes the scene warm up fast enough to be motion).
+// argv: <config dir> <frames> <clear every> [<test recording every> [<bad frame every> [<connections> [<step> [<base>]]]]]
 func verifSnapSeq() int {
 	args := strings.Fields(os.Getenv("VERIF_ARGS"))
 	if len(args) < 3 {
@@ -382,6 +386,16 @@ func verifSnapSeq() int {
 	if len(args) > 4 {
 		badEvery, _ = strconv.Atoi(args[4])
 	}
+	conns, step, base := 1, 1, 0
+	if len(args) > 5 {
+		conns, _ = strconv.Atoi(args[5])
+	}
+	if len(args) > 6 {
+		step, _ = strconv.Atoi(args[6])
+	}
+	if len(args) > 7 {
+		base, _ = strconv.Atoi(args[7])
+	}
 	var afterBad, staleAfterBad int
 	var testReqs []int
 	conf, err := ParseConfig(args[0])
@@ -389,113 +403,116 @@ func verifSnapSeq() int {
 		verifOut(map[string]interface{}{"ev": "config-error", "err": err.Error()})
 		return 1
 	}
-	os.Remove(conf.FrameInput)
-	listener, err := net.Listen("unix", conf.FrameInput)
-	if err != nil {
-		verifOut(map[string]interface{}{"ev": "listen-error", "err": err.Error()})
-		return 1
-	}
 	svc := &service{}
 	var checks, stale, afterClear, staleAfterClear int
 	first := ""
-	feederDone := make(chan struct{})
-	go func() {
-		defer close(feederDone)
-		conn, err := net.Dial("unix", conf.FrameInput)
+	var herr error
+	for c := 0; c < conns; c++ {
+		os.Remove(conf.FrameInput)
+		listener, err := net.Listen("unix", conf.FrameInput)
 		if err != nil {
-			return
+			verifOut(map[string]interface{}{"ev": "listen-error", "err": err.Error()})
+			return 1
 		}
-		defer conn.Close()
-		hdr := fmt.Sprintf("ResX: 160\nResY: 120\nFrameSize: %d\nModel: lepton3\nBrand: flir\nFPS: 9\nCameraSerial: 77\nFirmware: 1.0.0\n\n", lepton3.BytesPerFrame)
-		conn.Write([]byte(hdr))
-		raw := make([]byte, lepton3.BytesPerFrame)
-		snap := func(want uint16, what string) bool {
-			f, derr := svc.TakeSnapshot(-1)
-			if derr != nil || f == nil {
-				if first == "" {
-					first = what + ": no snapshot"
-				}
-				return false
+		feederDone := make(chan struct{})
+		go func() {
+			defer close(feederDone)
+			conn, err := net.Dial("unix", conf.FrameInput)
+			if err != nil {
+				return
 			}
-			for y := range f.Pix {
-				for x := range f.Pix[y] {
-					if f.Pix[y][x] != want {
-						if first == "" {
-							first = fmt.Sprintf("%s: pixel (%d,%d) = %d, last completed frame has %d", what, y, x, f.Pix[y][x], want)
+			defer conn.Close()
+			hdr := fmt.Sprintf("ResX: 160\nResY: 120\nFrameSize: %d\nModel: lepton3\nBrand: flir\nFPS: 9\nCameraSerial: 77\nFirmware: 1.0.0\n\n", lepton3.BytesPerFrame)
+			conn.Write([]byte(hdr))
+			raw := make([]byte, lepton3.BytesPerFrame)
+			snap := func(want uint16, what string) bool {
+				f, derr := svc.TakeSnapshot(-1)
+				if derr != nil || f == nil {
+					if first == "" {
+						first = what + ": no snapshot"
+					}
+					return false
+				}
+				for y := range f.Pix {
+					for x := range f.Pix[y] {
+						if f.Pix[y][x] != want {
+							if first == "" {
+								first = fmt.Sprintf("%s: pixel (%d,%d) = %d, last completed frame has %d", what, y, x, f.Pix[y][x], want)
+							}
+							return false
 						}
-						return false
+					}
+				}
+				return true
+			}
+			for i := 1; i <= nframes; i++ {
+				v := uint16((base+i*step)%60000 + 1)
+				ms := uint32(60000 + i*111)
+				raw[2], raw[3], raw[4], raw[5] = byte(ms>>8), byte(ms), byte(ms>>24), byte(ms>>16)
+				raw[60], raw[61], raw[62], raw[63] = byte(1000>>8), byte(1000&0xff), 0, 0
+				for p := 640; p+1 < len(raw); p += 2 {
+					raw[p], raw[p+1] = byte(v>>8), byte(v)
+				}
+				if _, err := conn.Write(raw); err != nil {
+					return
+				}
+				// wait until the frame loop has completed frame i: the snapshot becomes frame i
+				// (nothing else tells when Process() has moved the ring on); it must do so
+				// within 2 s and must then stay frame i until the next frame is sent
+				checks++
+				deadline := time.Now().Add(2 * time.Second)
+				got := false
+				for time.Now().Before(deadline) {
+					if f, derr := svc.TakeSnapshot(-1); derr == nil && f != nil && f.Pix[60][80] == v {
+						got = true
+						break
+					}
+					time.Sleep(50 * time.Microsecond)
+				}
+				if !got || !snap(v, fmt.Sprintf("after frame %d", i)) {
+					if first == "" {
+						first = fmt.Sprintf("after frame %d: the snapshot never became that frame", i)
+					}
+					stale++
+				}
+				if testEvery > 0 && i%testEvery == 0 && i+25 < nframes {
+					if derr := svc.TakeTestRecording(); derr == nil {
+						testReqs = append(testReqs, i)
+					}
+				}
+				if badEvery > 0 && i%badEvery == 0 {
+					bad := make([]byte, len(raw))
+					copy(bad, raw[:640])
+					for p := 640; p+1 < len(bad); p += 2 {
+						bad[p], bad[p+1] = 0xc3, 0x50
+					}
+					mid := 640 + 2*(60*160+80)
+					bad[mid], bad[mid+1] = 0, 0
+					conn.Write(bad)
+					time.Sleep(3 * time.Millisecond)
+					afterBad++
+					if !snap(v, fmt.Sprintf("after frame %d and a bad frame", i)) {
+						staleAfterBad++
+					}
+				}
+				if clearEvery > 0 && i%clearEvery == 0 {
+					conn.Write([]byte(clearBuffer))
+					time.Sleep(3 * time.Millisecond)
+					afterClear++
+					if !snap(v, fmt.Sprintf("after frame %d and a 'clear'", i)) {
+						staleAfterClear++
 					}
 				}
 			}
-			return true
+		}()
+		conn, err := listener.Accept()
+		if err != nil {
+			return 1
 		}
-		for i := 1; i <= nframes; i++ {
-			v := uint16(i%60000 + 1)
-			ms := uint32(60000 + i*111)
-			raw[2], raw[3], raw[4], raw[5] = byte(ms>>8), byte(ms), byte(ms>>24), byte(ms>>16)
-			raw[60], raw[61], raw[62], raw[63] = byte(1000>>8), byte(1000&0xff), 0, 0
-			for p := 640; p+1 < len(raw); p += 2 {
-				raw[p], raw[p+1] = byte(v>>8), byte(v)
-			}
-			if _, err := conn.Write(raw); err != nil {
-				return
-			}
-			// wait until the frame loop has completed frame i: the snapshot becomes frame i
-			// (nothing else tells when Process() has moved the ring on); it must do so
-			// within 2 s and must then stay frame i until the next frame is sent
-			checks++
-			deadline := time.Now().Add(2 * time.Second)
-			got := false
-			for time.Now().Before(deadline) {
-				if f, derr := svc.TakeSnapshot(-1); derr == nil && f != nil && f.Pix[60][80] == v {
-					got = true
-					break
-				}
-				time.Sleep(50 * time.Microsecond)
-			}
-			if !got || !snap(v, fmt.Sprintf("after frame %d", i)) {
-				if first == "" {
-					first = fmt.Sprintf("after frame %d: the snapshot never became that frame", i)
-				}
-				stale++
-			}
-			if testEvery > 0 && i%testEvery == 0 && i+25 < nframes {
-				if derr := svc.TakeTestRecording(); derr == nil {
-					testReqs = append(testReqs, i)
-				}
-			}
-			if badEvery > 0 && i%badEvery == 0 {
-				bad := make([]byte, len(raw))
-				copy(bad, raw[:640])
-				for p := 640; p+1 < len(bad); p += 2 {
-					bad[p], bad[p+1] = 0xc3, 0x50
-				}
-				mid := 640 + 2*(60*160+80)
-				bad[mid], bad[mid+1] = 0, 0
-				conn.Write(bad)
-				time.Sleep(3 * time.Millisecond)
-				afterBad++
-				if !snap(v, fmt.Sprintf("after frame %d and a bad frame", i)) {
-					staleAfterBad++
-				}
-			}
-			if clearEvery > 0 && i%clearEvery == 0 {
-				conn.Write([]byte(clearBuffer))
-				time.Sleep(3 * time.Millisecond)
-				afterClear++
-				if !snap(v, fmt.Sprintf("after frame %d and a 'clear'", i)) {
-					staleAfterClear++
-				}
-			}
-		}
-	}()
-	conn, err := listener.Accept()
-	if err != nil {
-		return 1
+		listener.Close()
+		herr = handleConn(conn, conf)
+		<-feederDone
 	}
-	listener.Close()
-	herr := handleConn(conn, conf)
-	<-feederDone
 	verifOut(map[string]interface{}{"ev": "snapseq-summary", "checks": checks, "stale": stale, "after_clear": afterClear,
 		"stale_after_clear": staleAfterClear, "after_bad": afterBad, "stale_after_bad": staleAfterBad, "first": first, "err": fmt.Sprint(herr), "test_requests_after_frames": testReqs})
 	return 0
